@@ -57,7 +57,7 @@ func nativeTunnel(p *Proxy, connect, inner []byte, startsTLS bool, n int) {
 			io.Copy(io.Discard, res.Body)
 		}
 	}()
-	p.handleLoop(pc)
+	serveConn(p, pc)
 	<-done
 }
 
@@ -133,7 +133,7 @@ func VerifC05Tunnel() {
 			segs = [][]byte{connect, inner.Bytes()}
 		}
 		p.SetMITM(new(mitm.Config))
-		p.handleLoop(newClientConn("client", true, segs...))
+		serveConn(p, newClientConn("client", true, segs...))
 	} else {
 		nativeTunnel(p, connect, inner.Bytes(), startsTLS, n)
 	}
